@@ -64,7 +64,7 @@ def isNormalNonneg (bits : Nat) : Bool :=
   decide (e ≠ 0) && decide (e ≠ 2047) && decide (bits / 2 ^ 63 % 2 = 0)
 
 /-- returns `model<TAB>spec` -/
-def handle (op : String) (a : List String) : Option String :=
+def handle' (op : String) (a : List String) : Option String :=
   let bad := some "bad-request\tbad-request"
   match op, a with
   | "c20.add", [flt, n, tw, elem, probes] =>
@@ -164,5 +164,12 @@ def handle (op : String) (a : List String) : Option String :=
       some (outStr m ++ "\t" ++ s)
     | none => bad
   | _, _ => none
+
+/-- `c20.fl_readf <payload> <k>` is `c20.fl_read` through a reader that returns short reads: `FilterLoad::read` is built on
+    `read_exact`-style reads, the answer does not depend on how the bytes are handed out -/
+def handle (op : String) (a : List String) : Option String :=
+  match op, a with
+  | "c20.fl_readf", [payload, _k] => handle' "c20.fl_read" [payload]
+  | _, _ => handle' op a
 
 end CG.Drv.C20
